@@ -276,3 +276,37 @@ Theorem appended_slice_position_refuted :
   alias_run [] [mkS None 0] [] [IRef 0 0; IRef 1 0; IPrune 2; IRef 1 1] =
   prog_prunes [IRef 0 0; IRef 1 0; IPrune 2; IRef 1 1].
 Proof. repeat split; vm_compute; reflexivity. Qed.
+
+(** *** positions have no depth bound
+    A position is a list of reference indices of any length (trees are up to
+    1024 deep).  The design of seeded mutation C18-r6m2 packs it into a 64-bit
+    word, two bits per step below a marker bit, and reads it back from the
+    highest set bit: after 31 steps the marker is shifted out and a shallower
+    position comes back — for a comb dictionary the sibling pruned at fork 32
+    becomes an ancestor of the proven key's own leaf. *)
+Definition pack64 (p : list nat) : N :=
+  fold_left (fun acc k => ((acc * 4 + N.of_nat k) mod 18446744073709551616)%N) p 1%N.
+
+Definition unpack64 (w : N) : list nat :=
+  let n := ((N.to_nat (N.size w) - 1) / 2)%nat in
+  map (fun i => N.to_nat ((w / 4 ^ N.of_nat (n - 1 - i)) mod 4)%N) (seq 0 n).
+
+Fixpoint is_prefix (a b : list nat) : bool :=
+  match a, b with
+  | [], _ => true
+  | x :: a', y :: b' => Nat.eqb x y && is_prefix a' b'
+  | _ :: _, [] => false
+  end.
+
+Theorem packed_position_refuted :
+  (* 31 steps: exact *)
+  unpack64 (pack64 (repeat 1%nat 31)) = repeat 1%nat 31 /\
+  (* key 1^32 0..: its leaf is at 1^32 ++ [0], the sibling pruned at fork 32 at 1^33 *)
+  unpack64 (pack64 (repeat 1%nat 33)) = repeat 1%nat 31 /\
+  (* what comes back is a proper prefix of the path to the key's own leaf *)
+  is_prefix (unpack64 (pack64 (repeat 1%nat 33))) (repeat 1%nat 32 ++ [0%nat]) = true /\
+  (* an all-left path of 32 steps comes back as the root *)
+  unpack64 (pack64 (repeat 0%nat 32)) = [].
+Proof.
+  repeat split; vm_compute; reflexivity.
+Qed.
